@@ -1,10 +1,11 @@
 SPECIFICATION Spec
 CONSTANTS
-  MaxN = 1
-  MaxQ = 2
+  MaxN = 0
+  MaxQ = 1
   MaxSess = 2
   MaxLater = 1
-  Depth = 5
+  Depth = 4
+  Full = FALSE
 CONSTRAINT Bound
 VIEW View
 INVARIANT ReplyConservation
